@@ -270,6 +270,13 @@ theorem pager_presents_every_character_body (seg : List Pager.Ch → List (List 
   · rw [hrow]
     simpa using hcell
 
+/-- Non-vacuity of the hypotheses of `pager_presents_every_character_body`: the one-segment segmentation; the text
+    "ab\ncd" at width 3 has the second line "cd" whose character 1 is `d`. -/
+example : ∀ t : List Pager.Ch, ((fun t => [t]) t).flatten = t := by intro t; simp
+
+example : (Pager.layout true 3 [⟨[97], 1⟩, ⟨[98], 1⟩, ⟨[10], 0⟩, ⟨[99], 1⟩, ⟨[100], 1⟩])[1]? = some [⟨[99], 1⟩, ⟨[100], 1⟩] ∧
+    ([⟨[99], 1⟩, ⟨[100], 1⟩] : Pager.Line)[1]? = some ⟨[100], 1⟩ := by decide
+
 /-! ### widgets/scrollbar -/
 
 /-- **The scrollbar's `Draw`, executed from its regenerated body** (both early returns, the two truncating divisions,
@@ -298,5 +305,8 @@ theorem scrollbar_in_track_body (total view top : Int) (w h fuel : Nat) (ce : Bo
   intro r _
   simp only [decide_eq_decide]
   omega
+
+/-- Non-vacuity: 10 lines of which 4 are visible from line 3 on, a track of 5 rows, a window 1 column wide. -/
+example : (1 : Int) ≤ 4 ∧ (4 : Int) < 10 ∧ (0 : Int) ≤ 3 ∧ (3 : Int) ≤ 10 - 4 ∧ 1 ≤ 5 ∧ 5 + 2 ≤ 7 := by decide
 
 end VaxisModel.Props.C19Wid
